@@ -9,13 +9,22 @@ K : (a) the generated table vs run-time introspection of the model modules (name
     model function makes to PhiManip / Integration / Spectrum.from_phi (recorded by wrapping them: function, every bound
     argument incl. defaults, size functions sampled in time, identity of the density and grid objects) vs the trace the
     Lean executor produces for the same parameter values (op c15.trace); (c) wrong-arity vectors: `err arity` vs exception;
-    (d) the hand table of nesting pairs / symmetric models is accepted by the model (ops c15.pairs / c15.symmetric).
+    (d) the hand table of nesting pairs / symmetric models is accepted by the model (ops c15.pairs / c15.symmetric / c15.permsym);
+    (e) units: the expected unit of every keyword of every generated signature (op c15.kwunits) vs the harness's own classification
+    by keyword name; per model the verdict of the units checker (op c15.units: every ill-united argument is reported with model,
+    primitive, keyword, expression, unit found and unit expected); the reference-size sites the Lean model lists for a model vs
+    the sites at which the *real* calls do not scale like a size (see L3).
 L3: the property statement evaluated on the real code, independent of the Lean model: every model at random parameters in
     the documented bounds, pts = 16, 20, 24 -> Spectrum of the requested sample sizes, finite, non-negative, extrap_x set;
     vectors of a wrong length are refused; zero-duration integration returns the density unchanged (the law the nesting
     theorems assume); each nesting pair agrees numerically at the nesting point (1e-8); label swap of the symmetric models:
     the difference is an operator-splitting error (ratio per decade of Integration.timescale_factor in [5, 20] when the last
-    epoch has migration; decreasing otherwise).
+    epoch has migration; decreasing otherwise); the same for every three-population entry of Pairs.permSymmetric (any permutation
+    of the labels: model(permuted params, permuted ns) vs numpy.transpose of model(params, ns)); units / multi-family homogeneity:
+    every model function is run three times with the integrators stubbed (they return the density unchanged — only the arithmetic of
+    the model function is observed): at p, at p with times × cT, rates × cR, selection × cG (sizes fixed: the reference-size convention)
+    and additionally sizes × cS; every numeric keyword of every recorded call must scale by the factor of the family its name
+    expects (nu*: cS, T: cT, m<ij>: cR, gamma*: cG, h*/f*/beta: 1; a size function f: f'(cT t) = cS f(t)).
 """
 import inspect, importlib, json, math, re, time
 import numpy as np
@@ -219,6 +228,21 @@ def ev(e, t=None, env=None):
         raise Stuck('call ' + e[1])
     raise Stuck('node ' + h)
 
+def show_expr(e):
+    """readable form of a Lean Expr (json)"""
+    h = e[0]
+    if h == 'p': return e[1]
+    if h == 't': return 't'
+    if h == 'lit': return '%d' % e[1] if e[2] == 1 else '%d/%d' % (e[1], e[2])
+    if h == 'sym': return e[1]
+    if h == 'neg': return '-(%s)' % show_expr(e[1])
+    ops = {'add': '+', 'sub': '-', 'mul': '*', 'div': '/', 'pow': '**'}
+    if h in ops: return '(%s%s%s)' % (show_expr(e[1]), ops[h], show_expr(e[2]))
+    if h == 'call': return '%s(%s)' % (e[1], show_expr(e[2]))
+    if h == 'lam': return 'lambda t: ' + show_expr(e[1])
+    if h == 'tup': return '(' + ', '.join(show_expr(x) for x in e[1:]) + ')'
+    return repr(e)
+
 def pick_branch(tr):
     while 'if' in tr:
         op, l, r = tr['if']
@@ -238,8 +262,9 @@ def wire_args(m, v):
 class Recorder:
     """wraps the primitives (module attributes, looked up by the model functions at call time) and records the outermost
     calls with every bound argument"""
-    def __init__(self, dadi, prim_names):
+    def __init__(self, dadi, prim_names, stub=False):
         self.dadi = dadi; self.calls = []; self.depth = 0; self.saved = []; self.grids = []
+        self.stub = stub              # integrators are not executed: they return their density argument
         self.targets = []
         for q in prim_names:
             modn, fn = q.split('.')
@@ -295,7 +320,10 @@ class Recorder:
                 rec.calls.append(entry)
             rec.depth += 1
             try:
-                out = orig(*a, **k)
+                if rec.stub and top and q.startswith('Integration.') and isinstance(entry['args'].get('phi'), np.ndarray):
+                    out = entry['args']['phi']
+                else:
+                    out = orig(*a, **k)
             finally:
                 rec.depth -= 1
             if top: entry['out'] = out
@@ -418,14 +446,37 @@ def k_tables(chk, ctx, models):
     ctx['_sigs'] = sigs
     ctx['_prims'] = [s[0] for s in sigs]
     ctx['_integrators'] = [s[0] for s in sigs if s[4] == 1]
-    ctx['_wf'] = {}; ctx['_branches'] = {}; ctx['_wiring'] = {}
+    ctx['_wf'] = {}; ctx['_branches'] = {}; ctx['_wiring'] = {}; ctx['_units'] = {}
     for n, pn, an in tbl:
         r = driver.ask('c15.wf ' + n)
         ctx['_wf'][n] = (r == 'ok 1')
         r = driver.ask('c15.wiring ' + n).split()
         if r and r[0] == 'ok':
             ctx['_wiring'][n] = (r[1] == '1'); ctx['_branches'][n] = int(r[2])
+        r = driver.ask('c15.units ' + n)
+        if r.startswith('ok '):
+            ctx['_units'][n] = json.loads(r[3:])
+    # expected unit of every keyword of every primitive: Lean's kwExpected vs the harness's own reading of the keyword names
+    bad = []
+    for fn, kws in ask_json(driver, 'c15.kwunits'):
+        for k, u in kws:
+            want = {'size': 'Size', 'time': 'Time', 'mig': 'Rate', 'sel': 'Sel', 'theta': 'Theta', 'one': 'dimensionless',
+                    'tuple': 'tuple of dimensionless numbers', None: 'not a number (density, grid, flag, id)'}[kw_family(k)]
+            if u != want: bad.append((fn, k, u, want))
+    if bad: chk.k_bad('c15.kwunits', dict(), [b[3] for b in bad[:8]], [b[:3] for b in bad[:8]], 'expected units of the keywords')
+    else: chk.k_ok('c15.kwunits')
     return tbl
+
+def kw_family(k):
+    """the family of quantity a primitive keyword expects, from its name (the harness's own table, independent of the Lean one)"""
+    if k in ('T', 'initial_t'): return 'time'
+    if k == 'theta0': return 'theta'
+    if re.match(r'^nu[0-9]*$', k): return 'size'
+    if re.match(r'^gamma[0-9]*$', k): return 'sel'
+    if re.match(r'^m[0-9][0-9]$', k): return 'mig'
+    if re.match(r'^(h[0-9]*|beta|f[0-9]*)$', k): return 'one'
+    if k in ('Fs', 'ploidys'): return 'tuple'
+    return None
 
 def spectrum_checks(dadi, fs, ns, pts, judge_sign=True):
     """the clauses of the property about one returned spectrum; list of (key, description)"""
@@ -763,6 +814,162 @@ def swap_check(chk, ctx, byname, name, args, rng, draws=3):
     elif rs:
         chk.stat('swap:decreasing(no migration in the last epoch)')
 
+# ----------------------------------------------------------------------------------------------- label permutation, three populations
+def perm_regime(rng, m):
+    """moderate sizes and rates, short epochs (three-population integrations at pts = 12 stay well below a second)"""
+    nT = max(1, sum(1 for n in m['pn'] if kind(n) == 'time'))
+    p = {}
+    for n in m['pn']:
+        k = kind(n)
+        if k == 'size': p[n] = coarse(math.exp(rng.uniform(math.log(0.5), math.log(2.0))))
+        elif k == 'time': p[n] = coarse(rng.uniform(0.15, 0.3) / nT)
+        elif k == 'mig': p[n] = coarse(rng.uniform(0.8, 2.5))
+        elif k == 'sel': p[n] = coarse(rng.uniform(-1.0, 1.0))
+        else: p[n] = coarse(rng.uniform(0.2, 0.8))
+    return p
+
+def perm_err(dadi, m, v, vs, ns, perm, pts, tf):
+    """relative difference between the model at the permuted parameters (sample sizes permuted) and the relabelled spectrum of the
+    model at its own parameters: new population i = old population perm[i]"""
+    I = dadi.Integration; old = I.timescale_factor
+    ns_new = tuple(ns[perm[i]] for i in range(len(perm)))
+    try:
+        I.timescale_factor = tf
+        with np.errstate(all='ignore'):
+            a = m['f'](v, ns, pts); b = m['f'](vs, ns_new, pts)
+    finally:
+        I.timescale_factor = old
+    da = np.transpose(np.asarray(a.data, dtype=float), perm); mk = ~np.transpose(np.ma.getmaskarray(a), perm)
+    db = np.asarray(b.data, dtype=float)
+    if da.shape != db.shape: return float('inf')
+    return float(np.max(np.abs(da - db)[mk]) / np.max(np.abs(da[mk])))
+
+def perm_check(chk, ctx, byname, name, perm, args, rng, draws=1):
+    """L3 for one three-population entry of Pairs.permSymmetric"""
+    dadi = ctx['dadi']; m = byname.get(name)
+    if m is None:
+        chk.broken.append('model: symmetric model %s does not exist' % name); return
+    d = len(perm)
+    if model_dim(m) != d:
+        chk.stat('perm:skipped(model does not run with %d populations)' % d); return
+    for _ in range(draws):
+        p = perm_regime(rng, m)
+        v = vec(m, p); vs = pair_args(args, p) if m['pn'] else None
+        ns = tuple(int(x) for x in rng.permutation([3, 4, 5, 6])[:d])            # distinct: a transposed axis shows
+        inp = dict(kind='perm', model=name, perm=list(perm), args=args, params=p, ns=list(ns), pts=12)
+        try:
+            e1 = perm_err(dadi, m, v, vs, ns, perm, 12, TF_DEFAULT)
+            e2 = perm_err(dadi, m, v, vs, ns, perm, 12, TF_DEFAULT / 10)
+        except Exception as e:
+            chk.fail('%s:perm:%s' % (name, type(e).__name__), 'label permutation %r of %s raises %r' % (perm, name, e), inp); return
+        chk.l3(('perm', name, tuple(perm)))
+        if not e1 <= 2e-2:
+            chk.fail('%s:perm:large' % name, '%s%r (ns %r) vs %s%r relabelled by %r (new population i = old population perm[i]; ns permuted): relative '
+                     'difference %.3e at the default time step — not an operator-splitting error' % (name, v, list(ns), name, vs, list(perm), e1), inp); return
+        if e1 < 1e-10 and e2 < 1e-10:
+            chk.stat('perm:exact'); continue
+        if not e2 < e1:
+            chk.fail('%s:perm:not_decreasing' % name, 'label-permutation difference of %s under %r does not shrink with the time step: %.3e at '
+                     'timescale_factor=1e-3, %.3e at 1e-4' % (name, list(perm), e1, e2), inp); return
+        chk.stat('perm:ratio_%d' % int(round(min(e1 / e2, 99))))
+
+# ----------------------------------------------------------------------------------------------- units on the real calls
+def units_params(rng, m, order=None):
+    """generic parameters: distinct, non-zero, moderate; `order`: epoch lengths increasing / decreasing along the parameter list"""
+    p = {}
+    for n in m['pn']:
+        k = kind(n)
+        if k == 'size': v = math.exp(rng.uniform(math.log(0.3), math.log(3.0)))
+        elif k == 'time': v = rng.uniform(0.1, 1.0)
+        elif k == 'mig': v = rng.uniform(0.2, 3.0)
+        elif k == 'sel': v = rng.uniform(0.2, 2.0) * (1 if rng.random() < 0.5 else -1)
+        else: v = rng.uniform(0.1, 0.9)
+        p[n] = coarse(v)
+    times = [n for n in m['pn'] if kind(n) == 'time']
+    if order is not None and len(times) >= 2:
+        for n, v in zip(times, sorted((p[n] for n in times), reverse=(order == 'decreasing'))): p[n] = v
+    return p
+
+def stub_calls(ctx, m, p, ns, pts=7):
+    rec = Recorder(ctx['dadi'], ctx['_prims'] or DEFAULT_PRIMS, stub=True)
+    with rec, np.errstate(all='ignore'):
+        m['f'](vec(m, p), ns, pts)
+    return rec.calls
+
+def scale_params(p, c):
+    return {n: coarse(v * c.get(kind(n), 1.0)) for n, v in p.items()}
+
+def unscaled_sites(base, scaled, c):
+    """(call index, primitive, keyword, value, rescaled value, expected factor) of every numeric keyword whose value does not scale by
+    the factor of the family the keyword expects; None if the two runs made different calls"""
+    if [x['fn'] for x in base] != [x['fn'] for x in scaled]: return None
+    bad = []
+    for i, (a, b) in enumerate(zip(base, scaled)):
+        if '__bind_error__' in a['args'] or '__bind_error__' in b['args']: continue
+        for k, v in a['args'].items():
+            fam = kw_family(k)
+            if fam is None: continue
+            w = b['args'].get(k); f = c.get(fam, 1.0)
+            if fam == 'tuple':
+                ok = isinstance(v, (tuple, list)) and isinstance(w, (tuple, list)) and len(v) == len(w) and all(num_close(x, y) for x, y in zip(v, w))
+                vv, ww = repr(v), repr(w)
+            elif callable(v) or callable(w):
+                if not (callable(v) and callable(w)):
+                    ok = False; vv, ww = repr(v), repr(w)
+                else:
+                    ts, vals = a['sampled'].get(k, ([], [])); ts2, vals2 = b['sampled'].get(k, ([], []))
+                    ok = len(vals) == len(vals2) and all(isinstance(x, float) and isinstance(y, float) and num_close(f * x, y) for x, y in zip(vals, vals2))
+                    vv, ww = 'function of time, values %r at t=%r' % (vals, ts), 'values %r at t=%r' % (vals2, ts2)
+            else:
+                ok = (not isinstance(v, bool)) and isinstance(v, (int, float)) and num_close(f * v, w)
+                vv, ww = repr(v), repr(w)
+            if not ok: bad.append((i, a['fn'], k, vv, ww, f))
+    return bad
+
+def units_check(chk, ctx, m, rng):
+    """L3 (+ K for the reference-size sites): multi-family homogeneity of the arguments the *real* model function passes"""
+    name = m['name']; d = model_dim(m)
+    if d is None: return
+    ns = (4,) * d if ploidy_even(m) else (3,) * d
+    orders = ['increasing', 'decreasing'] if has_branches(ctx, m) else [None]
+    observed = set(); ran = False
+    for order in orders:
+        p = units_params(rng, m, order)
+        fs = list(rng.permutation([0.125, 0.25, 0.5, 2.0, 4.0, 8.0])[:4])
+        cA = dict(size=1.0, time=float(fs[0]), mig=float(fs[1]), sel=float(fs[2]))
+        cB = dict(cA); cB['size'] = float(fs[3])
+        inp = dict(kind='units', model=name, params=p, order=order, factors=cA, size_factor=cB['size'])
+        try:
+            base = stub_calls(ctx, m, p, ns)
+            runA = stub_calls(ctx, m, scale_params(p, cA), ns)
+            runB = stub_calls(ctx, m, scale_params(p, cB), ns)
+        except Exception as e:
+            chk.fail('%s:units:%s' % (name, type(e).__name__), '%s with stubbed integrators raises %r' % (name, e), inp); return
+        chk.l3((name, 'units', order))
+        badA = unscaled_sites(base, runA, cA)
+        if badA is None:
+            chk.fail('%s:units:branch' % name, '%s%r makes other primitive calls when times, rates and selection coefficients are rescaled '
+                     '(x%r): a comparison between quantities of different units' % (name, vec(m, p), cA), inp); continue
+        for i, fn, k, v, w, f in badA:
+            chk.fail('%s:units:%s:%s' % (name, fn, k),
+                     '%s%r: call %d, %s keyword %s (a %s) receives %s; with times x%g, migration rates x%g, selection x%g it receives %s — '
+                     'it does not scale by x%g, so it is not a quantity of the family the keyword expects'
+                     % (name, vec(m, p), i, fn, k, kw_family(k), v, cA['time'], cA['mig'], cA['sel'], w, f), inp)
+        badB = unscaled_sites(base, runB, cB)
+        if badB is None: continue
+        ran = True
+        for i, fn, k, v, w, f in badB:
+            if any(x[0] == i and x[2] == k for x in badA): continue
+            if fn == 'PhiManip.phi_1D' and k == 'nu' and v == w and num_close(1.0, float(v)): continue      # the ancestral size: the reference size itself
+            observed.add((fn, k))
+    lean = ctx.get('_units', {}).get(name)
+    if ran and lean is not None:
+        want = set(tuple(x) for x in lean['refsites'])
+        single = ctx.get('_branches', {}).get(name, 1) == 1
+        if (observed == want) if single else (observed <= want): chk.k_ok('c15.refsites')
+        else: chk.k_bad('c15.refsites', dict(model=name), sorted(observed), sorted(want), 'reference-size sites')
+        chk.stat('refsites:%d' % len(observed))
+
 def extrap_check(chk, ctx, m, p, ns):
     """the documented use: wrapped for extrapolation over the three grids"""
     dadi = ctx['dadi']
@@ -847,14 +1054,19 @@ def _run(chk, ctx):
                 'm*: 0 / small / uniform [0,10] / 10, in half of the draws reduced to m*max(1, largest size) <= 8; s, f, F: uniform (0.02,0.98); gamma*: 0 or uniform with |gamma|*max(1, largest size) <= 3); non-negativity (entries >= -1e-3 of the largest entry: numerically-zero entries come out as -1e-5..-1e-4) is judged only in the regime the grids 16..24 resolve (m*nu <= 8, |gamma|*nu <= 3), everything else on every draw; the epoch lengths are then shrunk '
                 '(inside [0,3]) so that the three runs pts=16,20,24 fit a time budget (the cost is T*max(1/(4 nu), sum m, |gamma|/2)/timescale_factor '
                 'steps). Distinct = (model, grid) / (model, wrong length) / nesting pair / (symmetric model, class). Nesting pairs and symmetric models: '
-                'hand table of Model/ModelPairs.lean, parameters of the simpler model drawn as above.')
+                'hand table of Model/ModelPairs.lean, parameters of the simpler model drawn as above. Label permutations (three populations): '
+                'sizes in [0.5,2], rates in [0.8,2.5], total duration 0.15..0.3, pts=12, distinct sample sizes. Units: generic (distinct, non-zero) '
+                'parameters, integrators stubbed, families rescaled by distinct powers of two.')
     chk.unproved = ['finiteness and non-negativity of the returned spectra, the extrap_x tag (L3 on every model, three grids)',
                     'that the real primitives satisfy the laws the nesting theorems assume: zero-duration integration is the identity (L3, exact), '
                     '1*x = x (IEEE)',
                     'numerical agreement of every nesting pair at the nesting point to 1e-8 (L3)',
                     'size of the operator-splitting error under label swap: ratio per decade of timescale_factor in [5,20] (L3, models whose last epoch has migration); '
                     'models without migration in the last epoch: only "decreases with the time step" is asserted (the boundary treatment converges more slowly)',
-                    'nesting pairs that need algebra beyond 1*x = x (e.g. IM at s -> 1-s under label swap, bottlegrowth at nuF = nuB) are not claimed']
+                    'nesting pairs that need algebra beyond 1*x = x (e.g. IM at s -> 1-s under label swap, bottlegrowth at nuF = nuB) are not claimed',
+                    'that the real primitives are permutation-lawful (PermLawful: up to the operator-splitting error, L3 on the three-population entries) '
+                    'and scale-lawful (PrimScaleLawful: property C03, proved there per primitive); label permutation of the three admix_origin models '
+                    '(needs f -> 1-f) is not claimed']
     chk.assumptions += ['C15: a model function is read as a straight-line program over the primitives (closed statement language of tools/gen_Models.py; '
                         'anything else is a translation failure); the meaning of `let` is substitution (Python floats are pure)',
                         'C15: the dimension table of the primitives (phi_1D: 0->1, phi_1D_to_2D: 1->2, two_pops: 2->2, ...) is read off their names; K checks the '
@@ -866,6 +1078,11 @@ def _run(chk, ctx):
             chk.broken.append('model: %s is not well-formed in the generated table (C15_wellformed cannot hold)' % m['name'])
         if len(m['argn']) == 3 and ctx.get('_wiring', {}).get(m['name']) is False:
             chk.broken.append('model: %s passes a population-indexed parameter to a keyword of another index in some branch (C15_wiring cannot hold)' % m['name'])
+        u = ctx.get('_units', {}).get(m['name'])
+        if len(m['argn']) == 3 and u is not None and not u['lenient']:
+            for fn, kw, e, got, want in u['errors'][:6]:
+                chk.broken.append('model: %s: %s keyword %s receives %s of unit [%s], expected [%s] (C15_units cannot hold)'
+                                  % (m['name'], fn, kw, show_expr(e), got, want))
     chk.stat('models_with_branches', sum(1 for v in ctx.get('_branches', {}).values() if v > 1))
     # ---- every model: arity, runs
     t_start = time.time()
@@ -908,6 +1125,7 @@ def _run(chk, ctx):
                 run_model(chk, ctx, m, p, ns_for(rng, d, m))
         for bid, cnt in sorted(m.get('branches_hit', {}).items()):
             if has_branches(ctx, m): chk.stat('branch:%s:%s' % (m['name'], bid), cnt)
+        units_check(chk, ctx, m, rng)
     chk.stat('seconds_models', round(time.time() - t_start, 1))
     # ---- the law behind the nesting theorems
     zero_duration_checks(chk, ctx, rng, 2 if tier == 'quick' else 8)
@@ -932,7 +1150,17 @@ def _run(chk, ctx):
             else: chk.k_bad('c15.symmetric', dict(model=name, args=args), 'hand table', 'swapOK = false', 'swap')
             if i in todo:
                 swap_check(chk, ctx, byname, name, args, rng)
-        chk.stat('seconds_swap', round(time.time() - t1, 1))
+        chk.stat('seconds_swap', round(time.time() - t1, 1)); t1 = time.time()
+        # ---- any permutation of the labels (Pairs.permSymmetric): K on every entry, L3 on the three-population ones
+        psym = ask_json(driver, 'c15.permsym')
+        three = [i for i, e in enumerate(psym) if len(e[1]) == 3]
+        pick = set(three)
+        for i, (name, perm, args, ok) in enumerate(psym):
+            if ok: chk.k_ok('c15.permsym')
+            else: chk.k_bad('c15.permsym', dict(model=name, perm=perm, args=args), 'hand table', 'permOK = false', 'label permutation')
+            if i in pick:
+                perm_check(chk, ctx, byname, name, [int(x) for x in perm], args, rng, draws=1 if tier == 'quick' else 3)
+        chk.stat('seconds_perm', round(time.time() - t1, 1))
     else:
         chk.notes.append('driver unavailable: nesting pairs / symmetric models not evaluated')
 
@@ -962,6 +1190,10 @@ def _replay(chk, ctx, data):
         nesting_replay(chk, ctx, ma, mb, inp)
     elif k == 'swap' and inp.get('model') in byname:
         swap_check(chk, ctx, byname, inp['model'], inp['args'], rng)
+    elif k == 'perm' and inp.get('model') in byname:
+        perm_check(chk, ctx, byname, inp['model'], inp['perm'], inp['args'], rng, draws=3)
+    elif k == 'units' and inp.get('model') in byname:
+        units_check(chk, ctx, byname[inp['model']], rng)
     else:
         _run(chk, ctx)
 
